@@ -110,8 +110,27 @@ def main(argv=None) -> int:
             n += 1
         print(f"replayed {n} witness case(s) of {rec['signature']}")
         ctx.inconclusive = []
-        rc = finish(ctx, mod, repo)
-        return rc if rc != 2 else 0
+        if ctx.violations or os.environ.get("SPV_REPLAY_NO_HISTORY") == "1":
+            rc = finish(ctx, mod, repo)
+            return rc if rc != 2 else 0
+        # The witness did not reproduce in isolation (or carries no stand-alone case): the violation may depend on what the
+        # workload did before it (state carried between calls).  Re-execute the recorded workload - same tier, same seed,
+        # deterministic - and report whether the same signature is observed again.
+        tmp = tempfile.mkdtemp(prefix=f"spv-replay-{prop}-")
+        try:
+            env = dict(os.environ, VERIF_SEED=str(rec.get("seed", 0)), SPV_OUT=tmp)
+            p = subprocess.run([sys.executable, "-X", "dev", "-W", "ignore", "-m", "spverif", prop, rec.get("tier", a.tier)],
+                               capture_output=True, text=True, cwd=VERIF_ROOT, env=env, timeout=SHARD_TIMEOUT_S + 600)
+            again = f"signature={rec['signature']} " in p.stdout
+            print(f"re-executed the recorded workload (tier={rec.get('tier')}, seed={rec.get('seed')}): signature "
+                  + ("observed again" if again else "not observed"))
+            if again:
+                print(f"VIOLATION property={prop} replay={a.replay}")
+                print(f"  signature={rec['signature']} (reproduced by re-executing the recorded workload)")
+                return 1
+            return 0
+        finally:
+            shutil.rmtree(tmp, ignore_errors=True)
 
     if a.shard:
         i, n = map(int, a.shard.split("/"))
